@@ -1,8 +1,212 @@
-(* C06 -- proofs about Model/C06.v *)
-From PV Require Import Lib.Base Lib.Round Model.C12 Model.C06.
-From Coq Require Import QArith Qabs Qround Lqa.
+(* C06 -- proofs about Model/C06.v: tick conversion, tempo integration, id assignment, pairing *)
+From PV Require Import Lib.Base Lib.Round Model.C12 Model.C06 Proofs.C06_lib.
+From Coq Require Import QArith Qabs Qround Lqa Sorted Permutation.
+
+Section Ticks.
 #[local] Open Scope Q_scope.
 
+(* ---- seconds <-> ticks *)
 Lemma tick_of_sec_nearest_lemma ppq mpq t :
   Qabs (inject_Z (1000000 * ppq) * t / inject_Z mpq - inject_Z (sec_to_tick ppq mpq t)) <= 1 # 2.
 Proof. unfold sec_to_tick. apply round_half_even_near. Qed.
+
+Lemma inject_Z_nonzero z : (z <> 0)%Z -> ~ inject_Z z == 0.
+Proof. intros H C. unfold Qeq in C. cbn [Qnum Qden inject_Z] in C. lia. Qed.
+
+Lemma tick_roundtrip_lemma ppq mpq k :
+  (0 < ppq)%Z -> (0 < mpq)%Z -> sec_to_tick ppq mpq (tick_to_sec ppq mpq k) = k.
+Proof.
+  intros Hp Hm. unfold sec_to_tick, tick_to_sec.
+  assert (E : inject_Z (1000000 * ppq) * (inject_Z (mpq * k) / inject_Z (1000000 * ppq)) / inject_Z mpq == inject_Z k).
+  { rewrite (inject_Z_mult mpq k). field. split; apply inject_Z_nonzero; lia. }
+  rewrite E. apply round_half_even_Z.
+Qed.
+
+Lemma inject_Z_pos z : (0 < z)%Z -> 0 < inject_Z z.
+Proof. intros H. unfold Qlt. cbn [Qnum Qden inject_Z]. lia. Qed.
+
+Lemma sec_roundtrip_halftick_lemma ppq mpq s :
+  (0 < ppq)%Z -> (0 < mpq)%Z ->
+  Qabs (tick_to_sec ppq mpq (sec_to_tick ppq mpq s) - s) <= inject_Z mpq / inject_Z (2 * (1000000 * ppq)).
+Proof.
+  intros Hp Hm.
+  pose proof (tick_of_sec_nearest_lemma ppq mpq s) as N.
+  set (k := sec_to_tick ppq mpq s) in *. unfold tick_to_sec.
+  set (K := inject_Z (1000000 * ppq)) in *. set (M := inject_Z mpq) in *.
+  assert (HK : 0 < K) by (apply inject_Z_pos; lia).
+  assert (HM : 0 < M) by (apply inject_Z_pos; lia).
+  assert (E : inject_Z (mpq * k) / K - s == (M / K) * - (K * s / M - inject_Z k)).
+  { rewrite inject_Z_mult. fold M. field. split; lra. }
+  rewrite E, Qabs_Qmult, Qabs_opp.
+  assert (Hc : 0 < M / K) by (apply Qlt_shift_div_l; lra).
+  rewrite (Qabs_pos (M / K)) by lra.
+  assert (E2 : M / inject_Z (2 * (1000000 * ppq)) == (M / K) * (1 # 2)).
+  { rewrite (inject_Z_mult 2). fold K. change (inject_Z 2) with 2. field. lra. }
+  rewrite E2. apply Qmult_le_l; assumption.
+Qed.
+
+End Ticks.
+
+#[local] Open Scope Z_scope.
+
+(* ---- ticks -> seconds: the loader integrates every tempo change in tick order *)
+Lemma adjust_time_sorted_lemma ppq tc tick :
+  tick_sorted tc -> Forall (fun e => 0 <= fst e) tc -> 0 <= tick ->
+  adjust_time ppq tc tick = seconds_spec ppq tc tick.
+Proof.
+  intros S HF Ht. unfold adjust_time, seconds_spec. rewrite adjust_num_sorted; auto.
+Qed.
+
+Lemma load_seconds_spec_lemma ppq collected tick :
+  Forall (fun e => 0 <= fst e) collected -> 0 <= tick ->
+  adjust_time ppq (tempo_list collected) tick = seconds_spec ppq (sort_by_tick collected) tick.
+Proof.
+  intros HF Ht. destruct (tempo_list_spec collected) as (S & I & T).
+  rewrite adjust_time_sorted_lemma; auto.
+  - unfold seconds_spec. f_equal. f_equal. apply sum_from_ext. intros k _. apply T.
+  - apply Forall_forall. intros e He. rewrite Forall_forall in HF. auto.
+Qed.
+
+(* ---- ids: assigned along the lexicographic order of (onset, pitch, offset, channel) *)
+Definition lnote_key (n : lnote) : Z * Z * Z * Z := (ln_on n, ln_pitch n, ln_off n, ln_ch n).
+Definition lex4_le (a b : Z * Z * Z * Z) : Prop :=
+  let '(a1, a2, a3, a4) := a in let '(b1, b2, b3, b4) := b in
+  a1 < b1 \/ (a1 = b1 /\ (a2 < b2 \/ (a2 = b2 /\ (a3 < b3 \/ (a3 = b3 /\ a4 <= b4))))).
+
+Lemma lnote_leb_lex a b : lnote_leb a b = true <-> lex4_le (lnote_key a) (lnote_key b).
+Proof.
+  unfold lnote_leb, lex4_le, lnote_key.
+  destruct (ln_on a <? ln_on b) eqn:E1; [split; [lia|reflexivity]|].
+  destruct (ln_on b <? ln_on a) eqn:E2; [split; [discriminate|lia]|].
+  destruct (ln_pitch a <? ln_pitch b) eqn:E3; [split; [lia|reflexivity]|].
+  destruct (ln_pitch b <? ln_pitch a) eqn:E4; [split; [discriminate|lia]|].
+  destruct (ln_off a <? ln_off b) eqn:E5; [split; [lia|reflexivity]|].
+  destruct (ln_off b <? ln_off a) eqn:E6; [split; [discriminate|lia]|].
+  split; lia.
+Qed.
+
+Lemma lnote_leb_total a b : lnote_leb a b = false -> lnote_leb b a = true.
+Proof.
+  intros H. apply lnote_leb_lex.
+  assert (N : ~ lex4_le (lnote_key a) (lnote_key b)) by (intros C; apply lnote_leb_lex in C; congruence).
+  unfold lex4_le, lnote_key in *. lia.
+Qed.
+
+Lemma lnote_leb_trans a b c : lnote_leb a b = true -> lnote_leb b c = true -> lnote_leb a c = true.
+Proof.
+  rewrite !lnote_leb_lex. unfold lex4_le, lnote_key. lia.
+Qed.
+
+Lemma ids_sorted_perm_lemma l :
+  Permutation (sort_notes l) l /\
+  StronglySorted (fun a b => lex4_le (lnote_key a) (lnote_key b)) (sort_notes l).
+Proof.
+  split; [apply sort_le_perm|].
+  eapply StronglySorted_impl; [|apply (sort_le_sorted lnote_leb lnote_leb_total lnote_leb_trans l)].
+  intros a b H. apply lnote_leb_lex. exact H.
+Qed.
+
+(* ---- pairing *)
+Definition is_note_ev (k : Z) (m : msg) : bool :=
+  match m with
+  | NoteOn ch p _ | NoteOff ch p _ => note_hash ch p =? k
+  | _ => false
+  end.
+Definition is_off_for (ch p : Z) (m : msg) : bool :=
+  match m with
+  | NoteOn ch' p' v => (ch' =? ch) && (p' =? p) && (v <=? 0)
+  | NoteOff ch' p' _ => (ch' =? ch) && (p' =? p)
+  | _ => false
+  end.
+
+Lemma zlookup_remove_other k k' (s : list (Z * (Z * Z))) :
+  k <> k' -> zlookup k (sounding_remove k' s) = zlookup k s.
+Proof.
+  intros H. induction s as [|[k0 v0] r IH]; simpl; auto.
+  destruct (k' =? k0) eqn:E.
+  - rewrite IH. destruct (k =? k0) eqn:E2; auto. lia.
+  - simpl. rewrite IH. reflexivity.
+Qed.
+
+(* the sounding table after a prefix of the track *)
+Fixpoint final_state (s : list (Z * (Z * Z))) (l : list (Z * msg)) : list (Z * (Z * Z)) :=
+  match l with
+  | [] => s
+  | (t, m) :: r =>
+      match m with
+      | NoteOn ch p v =>
+          if 0 <? v then final_state ((note_hash ch p, (t, v)) :: sounding_remove (note_hash ch p) s) r
+          else match zlookup (note_hash ch p) s with
+               | Some _ => final_state (sounding_remove (note_hash ch p) s) r
+               | None => final_state s r
+               end
+      | NoteOff ch p _ =>
+          match zlookup (note_hash ch p) s with
+          | Some _ => final_state (sounding_remove (note_hash ch p) s) r
+          | None => final_state s r
+          end
+      | _ => final_state s r
+      end
+  end.
+
+Lemma pair_notes_app a : forall s b,
+  pair_notes s (a ++ b) = pair_notes s a ++ pair_notes (final_state s a) b.
+Proof.
+  induction a as [|[t m] r IH]; intros s b; simpl; auto.
+  destruct m; auto.
+  - destruct (0 <? vel); auto. destruct (zlookup (note_hash ch pitch) s) as [[t0 v0]|]; auto.
+    simpl. rewrite IH. reflexivity.
+  - destruct (zlookup (note_hash ch pitch) s) as [[t0 v0]|]; auto. simpl. rewrite IH. reflexivity.
+Qed.
+
+Lemma pair_until_off ch p t2 m2 post : forall mid s t1 v,
+  zlookup (note_hash ch p) s = Some (t1, v) ->
+  (forall e, In e mid -> is_note_ev (note_hash ch p) (snd e) = false) ->
+  is_off_for ch p m2 = true ->
+  In (mkLN p v ch t1 t2) (pair_notes s (mid ++ (t2, m2) :: post)).
+Proof.
+  induction mid as [|[t m] r IH]; intros s t1 v Hs Hmid Hoff.
+  - simpl. destruct m2; simpl in Hoff; try discriminate.
+    + apply andb_true_iff in Hoff as [Hoff Hv]. apply andb_true_iff in Hoff as [Hc Hp].
+      apply Z.eqb_eq in Hc, Hp. subst. destruct (0 <? vel) eqn:E; [lia|]. rewrite Hs. left. reflexivity.
+    + apply andb_true_iff in Hoff as [Hc Hp]. apply Z.eqb_eq in Hc, Hp. subst. rewrite Hs. left. reflexivity.
+  - assert (Hm : is_note_ev (note_hash ch p) m = false) by (apply (Hmid (t, m)); left; reflexivity).
+    assert (Hr : forall e, In e r -> is_note_ev (note_hash ch p) (snd e) = false) by (intros e He; apply Hmid; right; exact He).
+    simpl. destruct m; try (apply IH; auto); simpl in Hm; apply Z.eqb_neq in Hm.
+    + destruct (0 <? vel).
+      * apply IH; auto. simpl. destruct (note_hash ch p =? note_hash ch0 pitch) eqn:E; [lia|].
+        rewrite zlookup_remove_other; auto.
+      * destruct (zlookup (note_hash ch0 pitch) s) as [[t0 v0]|].
+        -- right. apply IH; auto. rewrite zlookup_remove_other; auto.
+        -- apply IH; auto.
+    + destruct (zlookup (note_hash ch0 pitch) s) as [[t0 v0]|].
+      * right. apply IH; auto. rewrite zlookup_remove_other; auto.
+      * apply IH; auto.
+Qed.
+
+(* O3: a note-on is paired with the next note-off / zero-velocity note-on of its channel and pitch *)
+Lemma pairing_next_off_lemma pre t1 ch p v mid t2 m2 post :
+  0 < v ->
+  (forall e, In e mid -> is_note_ev (note_hash ch p) (snd e) = false) ->
+  is_off_for ch p m2 = true ->
+  In (mkLN p v ch t1 t2) (pair_notes [] (pre ++ (t1, NoteOn ch p v) :: mid ++ (t2, m2) :: post)).
+Proof.
+  intros Hv Hmid Hoff. rewrite pair_notes_app. apply in_or_app. right.
+  simpl. destruct (0 <? v) eqn:E; [|lia].
+  apply pair_until_off; auto. simpl. rewrite Z.eqb_refl. reflexivity.
+Qed.
+
+(* pairing inverts event generation for any sequence of notes written one after the other *)
+Definition note_events (n : lnote) : list (Z * msg) :=
+  [(ln_on n, NoteOn (ln_ch n) (ln_pitch n) (ln_vel n)); (ln_off n, NoteOff (ln_ch n) (ln_pitch n) 0)].
+
+Lemma pairing_inverts_sequential_lemma ns :
+  Forall (fun n => 0 < ln_vel n) ns -> pair_notes [] (flat_map note_events ns) = ns.
+Proof.
+  induction 1 as [|n r Hv HF IH]; simpl; auto.
+  destruct (0 <? ln_vel n) eqn:E; [|lia]. cbn [zlookup]. rewrite Z.eqb_refl. rewrite IH. destruct n; reflexivity.
+Qed.
+
+Lemma load_seconds_example_lemma :
+  (adjust_time 480 (tempo_list [(0, 500000); (960, 600000); (240, 250000)]%Z) 1440%Z == 1225 # 1000)%Q.
+Proof. vm_compute. reflexivity. Qed.
